@@ -452,6 +452,44 @@ func harnesses(r *fw.Run) []fw.HarnessSpec {
 		inbound(c, roots, o, "variant")
 	})
 
+	// every level mask 1..7 (dense and sparse) on a pruned branch, on ordinary ancestors and below a Merkle proof,
+	// in every header / per-cell variant incl. stored hashes (their number depends on the mask, not on the level)
+	add("inbound-level-masks", 0, func(c *enum.Ctx) {
+		kind := c.ChooseFree(7)
+		pr, err := dag.PrunedKind(kind, seed, 0)
+		if err != nil {
+			c.Skip()
+			return
+		}
+		leaf := cell.MustNew([]byte{0xA5}, 8, nil, false)
+		var root *cell.Cell
+		shape := c.ChooseFree(4)
+		switch shape {
+		case 0:
+			root = pr
+		case 1:
+			root, err = cell.New([]byte{0x11}, 8, []*cell.Cell{pr}, false)
+		case 2:
+			root, err = cell.New([]byte{0x22, 0x80}, 9, []*cell.Cell{leaf, pr}, false)
+		case 3:
+			var mid *cell.Cell
+			mid, err = cell.New([]byte{0x33}, 8, []*cell.Cell{pr, leaf}, false)
+			if err == nil {
+				root, err = cell.NewMerkleProof(mid)
+			}
+		}
+		if err != nil || root == nil {
+			c.Skip()
+			return
+		}
+		o := variantOpts(c, 1)
+		h := root.ReprHash()
+		c.Case([]byte(fmt.Sprintf("masks/%d/%d/%x/%+v", kind, shape, h, o)), true)
+		c.Sample(map[string]any{"dag": root.Describe(), "pruned_mask": pr.Mask, "variant": fmt.Sprintf("%+v", o)})
+		c.Label("pruned kind %d (mask %03b) shape %d variant=%+v", kind, pr.Mask, shape, o)
+		inbound(c, []*cell.Cell{root}, o, "masks")
+	})
+
 	// real data
 	add("real-data", 0, func(c *enum.Ctx) {
 		its := realdata.BOCs()
